@@ -142,6 +142,9 @@ func (e *Env) CutAt(at ssa.Instruction, pred func(Fact) bool, assume []Fact) ([]
 	}
 	ef := e.EdgeFacts()
 	cut := map[edge]bool{}
+	if r, ok := at.(*ssa.Return); ok {
+		cut = errorEdges(r)
+	}
 	var used []Fact
 	usedEdges := map[string][]edge{}
 	for ed, fs := range ef {
